@@ -1,5 +1,5 @@
 #!/usr/bin/env python3
-# Writes the task files for seeding sub-agents: tools/seedprompts.py <suffix> <style> Cnn...   (style: hardening | refactor)
+# Writes the task files for seeding sub-agents: tools/seedprompts.py <suffix> <style> Cnn...   (style: hardening | refactor | twosite | sequence)
 # Each file holds ONLY the property record, one-line summaries of the changes already seeded for it (so that a new one differs), and
 # the rules of the exercise; nothing else from /verif is shown to a sub-agent. Files go to /tmp/seed/prompts/<Cnn><suffix>.txt.
 import json,glob,os,sys
@@ -11,6 +11,8 @@ for d in sorted(glob.glob('/verif/seeded/*')):
     m=json.load(open(d+'/meta.json'))
     taken.setdefault(pid,[]).append(m.get('summary','')[:130].replace('\n',' '))
 STYLE={
+'twosite':'''This time the change must consist of TWO (or three) small edits at DIFFERENT sites - different functions, preferably different files or packages - that each look harmless and each, applied ALONE, leave the property intact (or are a pure no-op): for instance one site changes a representation or an invariant that used to hold (a default value, nil versus empty, a normalisation, the format of a map key, the order of a slice, which of two equivalent fields is filled in, when a lazily computed field is filled in, what a helper returns for an edge case) and another site - a consumer written against the old assumption, or a second producer that is not updated - now disagrees with it; or a value is computed in one place and a stale copy of it is used in another. A reviewer looking at either hunk separately would approve it. The property breaks only when both edits are present AND a rare but VALID input (or sequence of API calls) makes the two sites meet. In meta.json add a field "alone": one sentence per hunk saying why that hunk alone is harmless.''',
+'sequence':'''This time the breakage must depend on a SEQUENCE or on STATE: it shows only after a particular series of steps (API calls on a PolicyEngine or analyzer object used more than once, a second analysis by the same object, the second of two directories, the n-th element of a list, a later document of a multi-document file, a later file of a directory, an object that is seen AFTER another object it relates to rather than before), or depends on the relative ORDER of otherwise valid items (files, documents, rules, peers, ports, owner references, policies), never on a single isolated item. Typical mechanisms: a variable hoisted out of a loop and not reset, a buffer or slice reused across iterations, state kept on a struct between calls, an early "already seen" shortcut, a first-wins / last-wins choice, an index that is off only past the first element, a map entry overwritten by a later equal key. The first / only / common case must behave exactly as before.''',
 'hardening':'''This time the change must read like a well-meant HARDENING or FEATURE pull request: an added validation or sanity check ("reject / skip inputs that look wrong"), defensive normalisation of input (trimming, lower-casing, defaulting, de-duplicating), better error handling (turning a warning into an error or the reverse, returning early on a condition deemed impossible), support for one more field or spelling of a manifest, a new convenience in the CLI. The addition is right for the inputs its author had in mind and wrong for a rare but VALID input it did not think of (a valid manifest is rejected or altered, a legal value is normalised away, an early return skips work that mattered, the new field is honoured on one code path only).''',
 'refactor':'''This time the change must read like a CLEAN-UP / REFACTORING pull request that claims to change no behaviour: two similar functions merged into one with a parameter, a hand-written loop replaced by a library call (slices / maps / strings / sort helpers), a struct or map key simplified, a helper extracted and reused at a second call site where the precondition differs slightly, a pointer receiver turned into a value (or the reverse), a slice reused instead of copied, a condition "simplified", an order of two steps exchanged for readability, a sort made "simpler", a string built with another formatter. It is equivalent to the old code for all common inputs and differs for a rare but VALID one.''',
 }[style]
